@@ -6,6 +6,7 @@ driver: `c08 <mode> <maxBytes> <tags> <pre> <chunks> <info>`        (tags / requ
   pre    = requests executed before the connection under test (by another session), joined by ';'
   mode   = `s`: the chunks are one connection's byte stream (frames are split off by the model)
            `p`: every chunk is handed to the frame parser on its own and processed independently
+           `u`: the chunks are datagrams for the UDP loop (same rule: `serveDatagrams`)
   chunks = hex strings joined by ','
   info   = per frame (in the order processed), joined by ';':  `<k|e><cp>`  with
            k/e  = what the implementation did after a frame that is not a well-formed tag request: session goes on / ends
@@ -172,7 +173,7 @@ def handle : List String → Option String
       if mode == "s" then
         let bs := cs.flatten
         some (runStream infos bs.length 0 d bs)
-      else if mode == "p" then some (runChunks infos 0 d cs)
+      else if mode == "p" || mode == "u" then some (runChunks infos 0 d cs)   -- u: datagrams (`serveDatagrams`)
       else none
     pure ((if outs.isEmpty then "-" else ";".intercalate outs) ++ s!"#{outs.length}")
   | ["c08.scan", req] => do
